@@ -104,3 +104,13 @@ Fixpoint all_match (os : list obs) (ms : list (option (list tag))) : bool :=
   end.
 Definition machine_agrees (stat_drops_p : bool) (ops : list cop) (observed : list (option (list tag))) : bool :=
   all_match (run stat_drops_p (init_state (CBase 0)) ops) observed.
+
+(* Tcontrast options: every stored field close to the model's, every non-stored field None on both sides *)
+Definition oq_close (tol : Q) (a b : option Q) : bool :=
+  match a, b with
+  | Some x, Some y => qrelclose tol x y
+  | None, None => true
+  | _, _ => false
+  end.
+Definition tres_close (tol : Q) (m : tres Q) (t e sd : option Q) : bool :=
+  oq_close tol (r_t m) t && oq_close tol (r_effect m) e && oq_close tol (r_sd m) sd.
